@@ -225,6 +225,47 @@ def make_killed(only, seqs):
     return fn
 
 
+def scale_fn(g):
+    """18 / 40 recorded versions are archived, forgotten and restored; the restore is killed at points spread over its run."""
+    nver = (18, 40)[g.choose("versions", 2)]
+    git = "clean"
+    proj = project(None, None, git)
+    try:
+        for i in range(nver):
+            base = "e.task.%d" % (500 + i)
+            proj.add_version("//:e", 500 + i, commit=HASH, files={
+                "result.txt": ("result of " + base).encode(), "stdout.log": ("stdout of %s\n" % base).encode(),
+                "stderr.log": ("stderr of %s\n" % base).encode()})
+        arch = str(proj.root / "all.tar.gz")
+        st = hrun.invoke_argv(["archive", "-o", arch], str(proj.root), fakeos.Kernel(Sch(lambda proc: StatusExited(0), git))).status
+        g.require(st == 0, "index:harness-archive-failed", "archive of %d versions exited %r" % (nver, st))
+        shutil.rmtree(proj.out)
+        only = ("cli/restore.py", "execution/version_index.py")
+        step = lambda: hrun.invoke_argv(["restore", arch], str(proj.root), fakeos.Kernel(Sch(lambda proc: StatusExited(0), git))).status
+        cfg = ("scale", nver)
+        if cfg not in _L:
+            p0 = project(None, None, git)
+            try:
+                r0 = crash.run_in_child(lambda: hrun.invoke_argv(["restore", arch], str(p0.root), fakeos.Kernel(Sch(lambda proc: StatusExited(0), git))).status, None, only)
+            finally:
+                p0.cleanup()
+            _L[cfg] = r0.get("lines", 0)
+        L = _L[cfg]
+        k = 23 * (1 + g.choose("kill_block", max(1, L // 23)))        # every 23rd executed line
+        out = crash.run_in_child(step, k, only)
+        D = "%d recorded versions archived, cond-out removed, restore killed at line event %d/%d (%s)" % (nver, k, L, out.get("killed_at"))
+        if "child_error" in out:
+            g.require(False, "index:harness-child-error", "%s; %s" % (out["child_error"], D))
+        check_rows(g, proj, None, None, D)
+        rows = proj.index_rows()
+        g.require(len(rows) in (0, nver), "index:partially-restored-index", "%d of %d rows; %s" % (len(rows), nver, D))
+        if out.get("killed"):
+            g.goal("restore of many versions killed midway")
+        return {"nontrivial": bool(out.get("killed")), "sample": {"case": D, "rows": len(rows)}}
+    finally:
+        proj.cleanup()
+
+
 _WARM = [False]
 
 
@@ -255,6 +296,9 @@ def spaces(tier):
                     [list(s) for s in (SEQS[:2] if tier == "quick" else SEQS)], list(ANCHORED)),
                 depth="marker", goals=["command killed midway", "killed while finishing a task", "killed around the index insertion"],
                 outside=["power loss", "kill inside sqlite's commit", "bytecode granularity"])]
+    sp.append(Space("scale-restore-of-many-versions-killed", scale_fn,
+                    "18 / 40 recorded versions archived, forgotten and restored; the restore is killed at every 23rd executed line of "
+                    "cli/restore.py + execution/version_index.py", depth=2, goals=["restore of many versions killed midway"]))
     if tier == "thorough":
         sp.append(Space("killed-all-lines", make_killed(None, SEQS[:2]),
                         "run-ok / run-fail killed at every executed line of conductor.*", depth="marker", tiers=("thorough",)))
